@@ -298,6 +298,16 @@ fn do_call(lvl: &PriceLevel, generator: &UuidGenerator, op: &str) -> String {
         "RH" => format!("num:{}", lvl.hidden_quantity()),
         "RC" => format!("num:{}", lvl.order_count()),
         "LIST" => format!("list:{}", list_str(&lvl.iter_orders(), |o| str_of_order(o))),
+        // a snapshot: three counter loads and an iteration (not a call of Model/Conc.v: only in `nomodel` programs)
+        "SNAP" => {
+            let s = lvl.snapshot();
+            format!("snap:{}/{}/{}/{}", s.visible_quantity, s.hidden_quantity, s.order_count, list_str(&s.orders, |o| str_of_order(o)))
+        }
+        // a snapshot package restored at once: must always succeed
+        "SNAPPKG" => match lvl.snapshot_package().and_then(PriceLevel::from_snapshot_package) {
+            Ok(l) => format!("pkg:ok:{}", l.order_count()),
+            Err(e) => format!("pkg:err:{}", e.to_string().replace(' ', "_")),
+        },
         "NEXT" => format!("id:{}", generator.next()),
         _ => format!("error:{op}"),
     }
@@ -510,18 +520,24 @@ pub fn run(modelrun: &str) {
         }
         out::line(&format!("Q {}", state_str(&lvl)));
         // ---- model: accept the trace ----
-        let tl = progs.iter().map(|p| p.join(";").replace(' ', "~")).collect::<Vec<_>>().join("#");
-        let m = model.call(&format!("CTHREADS {tl}"));
-        if m.starts_with("error") {
-            out::line(&format!("X model {m}"));
+        // `nomodel`: the program uses calls Model/Conc.v does not have (snapshot): judged only, not compared
+        let nomodel = flags.split(',').any(|x| x == "nomodel");
+        if nomodel {
+            out::line("V nomodel");
+        } else {
+            let tl = progs.iter().map(|p| p.join(";").replace(' ', "~")).collect::<Vec<_>>().join("#");
+            let m = model.call(&format!("CTHREADS {tl}"));
+            if m.starts_with("error") {
+                out::line(&format!("X model {m}"));
+            }
+            // `proj=<classes>`: compare only events on these object classes (see CTRACEP in modelrun/driver.ml)
+            let proj = flags.split(',').find_map(|x| x.strip_prefix("proj="));
+            let v = match proj {
+                Some(p) => model.call(&format!("CTRACEP {} {}", p.replace('+', ","), trace.join(" "))),
+                None => model.call(&format!("CTRACE {}", trace.join(" "))),
+            };
+            out::line(&format!("V {v}"));
         }
-        // `proj=<classes>`: compare only events on these object classes (see CTRACEP in modelrun/driver.ml)
-        let proj = flags.split(',').find_map(|x| x.strip_prefix("proj="));
-        let v = match proj {
-            Some(p) => model.call(&format!("CTRACEP {} {}", p.replace('+', ","), trace.join(" "))),
-            None => model.call(&format!("CTRACE {}", trace.join(" "))),
-        };
-        out::line(&format!("V {v}"));
         if drain {
             let r = catch_unwind(AssertUnwindSafe(|| {
                 out::arm(&format!("{id} drain"), 5000);
@@ -530,8 +546,10 @@ pub fn run(modelrun: &str) {
                 format!("{} {}", result_str(&res), state_str(&lvl))
             }));
             out::line(&format!("D {}", r.unwrap_or_else(|_| "panic".into())));
-            let m = model.call("CDRAIN u777777");
-            out::line(&format!("DM {m}"));
+            if !nomodel {
+                let m = model.call("CDRAIN u777777");
+                out::line(&format!("DM {m}"));
+            }
         }
         let e = model.call("IFACE");
         out::line(&format!("E {id} {e}"));
